@@ -170,7 +170,7 @@ func checkC03(c *chk.Ctx) {
 	var cases []*rcase
 	var specs []work.PkgSpec
 	for i, raw := range raws {
-		if !c.Thorough() && (i+int(c.Seed))%2 != 0 {
+		if false && (i+int(c.Seed))%2 != 0 { // (no sampling: both tiers run every case)
 			continue
 		}
 		prefix := fmt.Sprintf("r%d", i)
